@@ -140,6 +140,9 @@ def shapes(tier, seed):
             for names in ([1], [2, 1]):
                 out.append({'h': 'list', 'impl': impl, 'names': names, 'cuts': 3, 'max_paths': 400000})
         out.append({'h': 'list', 'impl': impl, 'names': [255], 'cuts': 1})
+        # names of 4..8 symbolic bytes (long enough to look like a sync id such as FAIL / DENT / DONE), every cut position
+        for names in ([4], [5, 1], [8]):
+            out.append({'h': 'list', 'impl': impl, 'names': names, 'cuts': 1, 'max_paths': 400000})
         for ws in (1000, 4096, 1 << 20, 20, 21):
             out.append({'h': 'list', 'impl': impl, 'names': [], 'many': 150 if q else 300, 'wrte_size': ws})
         for nc in ((0, 1, 2) if q else (0, 1, 2, 3)):
